@@ -113,3 +113,6 @@ TRUSTED = [
     "Gap rows are built with object.__new__ (functools.cache on Gap.__new__ would hash, i.e. realise, the symbolic length)",
     "loader cuts: OverlapResult's default name f-string uses opaque integer tokens",
 ]
+
+TECHNIQUE = ("symbolic execution of IndexedAssembly.find_overlaps (CrossHair + z3) per row-kind string with unbounded row lengths and query; oracle = linear scan")
+LEVEL_TEXT = ("Every (row lengths, query) combination of each of the 30 (quick) / 70 (thorough) scaffold shapes is decided, boundary cases included.")
